@@ -253,7 +253,7 @@ Proof.
   - reflexivity.
   - reflexivity.
   - reflexivity.
-  - repeat constructor.
+  - reflexivity.
   - right. left. reflexivity.
 Qed.
 
